@@ -491,6 +491,9 @@ class CBO(Search):
 
         self._num_asked = 0
 
+        # True when configurations were asked and no result was told to the optimizer since
+        self._asked_not_told = False
+
     def _setup_optimizer(self):
         if self._fitted:
             self._opt_kwargs["n_initial_points"] = 0
@@ -513,7 +516,13 @@ class CBO(Search):
         Returns:
             List[Dict]: a list of hyperparameter configurations to evaluate.
         """
+        if self._asked_not_told:
+            # The last suggestions were handed out and nothing was told since (e.g., a search call
+            # stopped while submitting them): renew them instead of suggesting them again
+            self._opt.update_next()
+
         new_X = self._opt.ask(n_points=n, strategy=self._multi_point_strategy)
+        self._asked_not_told = True
         new_samples = [self._to_dict(x) for x in new_X]
         self._num_asked += n
         return new_samples
@@ -558,11 +567,13 @@ class CBO(Search):
             logging.info("Fitting the optimizer...")
             t1 = time.time()
             self._opt.tell(opt_X, opt_y)
+            self._asked_not_told = False
             logging.info(f"Fitting took {time.time() - t1:.4f} sec.")
         elif len(results) > 0:
             # Nothing to learn from (e.g., only failures with filter_failures="ignore") but the
             # last suggestions were evaluated: renew them so that they are not suggested again
             self._opt.update_next()
+            self._asked_not_told = False
 
     def _search(self, max_evals, timeout, max_evals_strict=False):
         if self._opt is None:
